@@ -31,7 +31,7 @@ PROP = "C01"
 # --------------------------------------------------------------------------- run-functions
 
 
-FLAT = ("x", "tag", "fail", "d", "prio", "form")  # the other keys of a configuration hold nested mutable values
+FLAT = ("x", "tag", "fail", "d", "prio", "form", "zero")  # the other keys of a configuration hold nested mutable values
 
 
 def nested_part(cfg):
@@ -54,7 +54,11 @@ def weight(v):
 def value(cfg):
     """what the run-function returns for a configuration (Drivers/C01.lean `runF` is the same): it depends on
     the nested values too, so a run-function that saw a later edit of the caller's object is visible"""
-    return "F_" + cfg["tag"] if cfg["fail"] else 3.0 * cfg["x"] + 0.5 + 16.0 * weight(nested_part(cfg))
+    if cfg["fail"]:
+        return "F_" + cfg["tag"]
+    if cfg.get("zero"):  # an objective that is falsy in `if job_data["out"]` (several evaluators on one search)
+        return 0.0
+    return 3.0 * cfg["x"] + 0.5 + 16.0 * weight(nested_part(cfg))
 
 
 def returned(job):
@@ -188,7 +192,7 @@ def _canon_out(out, hpo):
 
 def _canon_job(job, hpo):
     a = job.args
-    return {"id": _jid(job.id), "x": a.get("x"), "tag": a.get("tag"), "fail": a.get("fail"),
+    return {"id": _jid(job.id), "x": a.get("x"), "tag": a.get("tag"), "fail": a.get("fail"), "zero": bool(a.get("zero", False)),
             "nest": common.canon(nested_part(a)), "w": weight(nested_part(a)),
             "out": _canon_out(job.output, hpo), "status": job.status.name}
 
@@ -198,13 +202,17 @@ class Real:
 
     PRE = "p:x,p:tag,p:fail,objective,job_id,job_status\n99,old,False,1.0,99,DONE\n"  # somebody else's results.csv
 
-    def __init__(self, case, spy, vt):
+    def __init__(self, case, spy, vt, shared=None):
         from deephyper.evaluator import Evaluator, HPOJob
 
         self.case, self.spy, self.vt = case, spy, vt
         self.backend, self.hpo = case["backend"], case["hpo"]
         fn = {"serial": run_serial, "thread": run_thread, "process": run_sleep, "loky": run_sleep}[self.backend]
-        self.ev = Evaluator.create(fn, method=self.backend, method_kwargs={"num_workers": case["workers"]})
+        kw = {"num_workers": case["workers"]}
+        self.shared = shared
+        if shared is not None:  # several evaluators attached to one storage search
+            kw.update(storage=shared["storage"], search_id=shared["sid"])
+        self.ev = Evaluator.create(fn, method=self.backend, method_kwargs=kw)
         if self.hpo:
             self.ev._job_class = HPOJob  # the way the searches (and the repo's tests) select the HPO format
         self.ev.__enter__()  # the evaluator is a context manager (its __exit__ shuts the executor down)
@@ -213,11 +221,12 @@ class Real:
             with open(os.path.join(self.dir, "results.csv"), "w") as f:
                 f.write(self.PRE)
         self.rows_seen = 0
-        self.pool = {}        # the caller's configuration objects (identity matters: reused and edited)
+        self.pool = {} if shared is None else shared["pool"]  # the caller's configuration objects (identity matters: reused and edited)
         self.handed = []      # job objects the gathers handed to the caller
         self.cfg_by_x = {}
-        self.reg = {}
-        self.prio = {}
+        self.reg = {} if shared is None else shared["reg"]
+        self.prio = {} if shared is None else shared["prio"]
+        self.own_x = set()
         if self.backend == "thread":
             global _REG_CURRENT
             _REG_CURRENT = self.reg
@@ -277,11 +286,27 @@ class Real:
                             self.pool[k] = o
                     objs.append(o)
                     self.cfg_by_x[o["x"]] = o
+                    self.own_x.add(o["x"])
                     if self.backend == "thread":
                         self.reg[o["x"]] = {"entered": threading.Event(), "release": threading.Event(), "finished": threading.Event()}
                         self.prio[o["x"]] = o.get("prio", 0)
                 truth = [copy.deepcopy(o) for o in objs]  # ground truth: the configurations as submitted
-                ev.submit(objs)  # the caller's own objects, not copies
+                sent = objs
+                if self.shared is not None:
+                    from deephyper.core.exceptions import MaximumJobsSpawnReached
+
+                    n0 = len(self.shared["storage"].load_all_job_ids(self.shared["sid"]))
+                    try:
+                        ev.submit(objs)
+                    except MaximumJobsSpawnReached:
+                        out = {"kind": "spawnmax"}
+                    made = len(self.shared["storage"].load_all_job_ids(self.shared["sid"])) - n0
+                    truth, sent = truth[:made], objs[:made]  # the configurations that became jobs
+                    self.shared["objs"].extend(sent)
+                else:
+                    ev.submit(objs)  # the caller's own objects, not copies
+            elif kind == "setmax":
+                ev.set_maximum_num_jobs_submitted(op["n"])
             elif kind == "mutate":
                 # the caller goes on editing an object it submitted earlier (before any gather ran it)
                 o = self.pool.get(op["obj"])
@@ -321,8 +346,23 @@ class Real:
                 if self.backend == "thread":
                     th = threading.Thread(target=self._director, args=(stop, op.get("bursts") or [1]), daemon=True)
                     th.start()
-                res = ev.gather("ALL") if op["all"] else ev.gather("BATCH", op["k"])
-                if isinstance(res, tuple):
+                if self.shared is not None:  # gather_other_jobs_done prints the storage's job data
+                    import contextlib
+                    import io
+
+                    with contextlib.redirect_stdout(io.StringIO()):
+                        res = ev.gather("ALL") if op["all"] else ev.gather("BATCH", op["k"])
+                else:
+                    res = ev.gather("ALL") if op["all"] else ev.gather("BATCH", op["k"])
+                if isinstance(res, tuple) and self.shared is not None:
+                    out = {"kind": "jobs", "jobs": [_canon_job(j, self.hpo) for j in res[0]],
+                           "other": [_canon_job(j, self.hpo) for j in res[1]]}
+                    out["_args"] = [copy.deepcopy(j.args) for j in res[0]]
+                    out["_outputs"] = [copy.deepcopy(j.output) for j in res[0]]
+                    out["_other_args"] = [copy.deepcopy(j.args) for j in res[1]]
+                    out["_other_outputs"] = [copy.deepcopy(j.output) for j in res[1]]
+                    self.handed.extend(res[0])
+                elif isinstance(res, tuple):
                     out = {"kind": "jobs+other", "jobs": [_canon_job(j, self.hpo) for j in res[0]],
                            "other": [_canon_job(j, self.hpo) for j in res[1]]}
                 else:
@@ -333,8 +373,9 @@ class Real:
             elif kind == "close":
                 ev.close()
                 if self.backend == "thread":  # free the worker threads of the cancelled evaluations
-                    for r in self.reg.values():
-                        r["release"].set()
+                    for x, r in self.reg.items():
+                        if self.shared is None or x in self.own_x:
+                            r["release"].set()
             elif kind == "dump":
                 if op.get("alias"):  # the deprecated name of the same method
                     ev.dump_evals(self.dir, flush=op["flush"])
@@ -358,6 +399,8 @@ class Real:
         waits = self.spy.take()
         started = [i for i, (b, a) in enumerate(zip(before, after)) if b == "READY" and a in ("RUNNING", "DONE")]
         env = {"started": started}
+        if self.shared is not None and self.ev is not None:
+            env["started_ids"] = [_jid(ev.jobs[i].id) for i in started]  # as ids of the shared search
         if kind == "gather":
             env["waits"] = waits
         elif kind == "close":
@@ -366,6 +409,9 @@ class Real:
         if kind == "submit" and exc is None:
             obs["truth"] = truth
         return obs
+
+    def own_statuses(self):
+        return {_jid(j.id): j.status.name for j in self.ev.jobs}
 
     def _new_rows(self):
         path = os.path.join(self.dir, "results.csv")
@@ -663,8 +709,8 @@ def gen_case(rng, backend, maxlen, malformed=False):
 
 
 def _cfg_wire(c):
-    return {"x": c["x"], "tag": c["tag"], "fail": c["fail"], "nest": common.canon(nested_part(c)),
-            "w": weight(nested_part(c))}
+    return {"x": c["x"], "tag": c["tag"], "fail": c["fail"], "zero": bool(c.get("zero", False)),
+            "nest": common.canon(nested_part(c)), "w": weight(nested_part(c))}
 
 
 def lean_requests(case, trace, pre=False):
@@ -746,7 +792,7 @@ def compare(case, trace, reps):
                 "jobs_done": obs["jobs_done"], "statuses": obs["statuses"]}
         model = {k: rep[k] for k in mine}
         if mine["out"].get("kind") == "rows":
-            model["out"] = {"kind": "rows", "jobs": [{k: v for k, v in j.items() if k not in ("nest", "w")}
+            model["out"] = {"kind": "rows", "jobs": [{k: v for k, v in j.items() if k not in ("nest", "w", "zero")}
                                                      for j in model["out"].get("jobs", [])]}
         if rep["other"]:
             return {"op": i, "what": "model: gather_other_jobs_done would return jobs", "other": rep["other"]}
@@ -1096,6 +1142,443 @@ def shared_storage_case(ck, rng, vt, seed=None):
         ck.fail(f"{PROP}|other-jobs|gather|shared-storage", "two evaluators on one storage search: " + bad[0], case, bad[:5])
 
 
+# --------------------------------------------------------------------------- several evaluators, ONE storage search
+# (Model/EvaluatorMulti.lean): interleaved calls of 1-3 evaluators attached to the same MemoryStorage search,
+# incl. set_maximum_num_jobs_submitted / MaximumJobsSpawnReached; L2 = step-by-step replay against `mStep`,
+# L3 = the verified checker `checkMTrace` (theorem C01_multi_checker) on the real trace + a Python cross-check.
+
+
+_ZERO_TRUTHY = None
+
+
+def zero_output_is_reported():
+    """does `gather_other_jobs_done` report a job whose stored objective is 0.0?  (`if job_data["out"]`: no;
+    `if job_data["out"] is not None`: yes) — a parameter (`truthy`) of the model, observed once per run"""
+    global _ZERO_TRUTHY
+    if _ZERO_TRUTHY is None:
+        import contextlib
+        import io
+
+        from deephyper.evaluator import HPOJob, SerialEvaluator
+        from deephyper.evaluator.storage import MemoryStorage
+
+        async def zero(job):
+            return 0.0
+
+        st = MemoryStorage()
+        sid = st.create_new_search()
+        a, b = (SerialEvaluator(zero, storage=st, search_id=sid) for _ in range(2))
+        a._job_class = b._job_class = HPOJob
+        a.submit([{"x": 0}])
+        with contextlib.redirect_stdout(io.StringIO()):
+            a.gather("ALL")
+            res = b.gather("ALL")
+        a.close()
+        b.close()
+        _ZERO_TRUTHY = isinstance(res, tuple) and len(res[1]) == 1
+    return _ZERO_TRUTHY
+
+
+def gen_shared_case(rng, backend, maxlen, malformed=False):
+    n = rng.choice([1, 2, 2, 2, 3, 3])
+    hpo = rng.random() < 0.85  # stored outputs (hence reports to the other evaluators) exist in the HPO format only
+    big = rng.random() < 0.25  # more than 10 jobs: the ids "s.10", "s.11" sort before "s.2" in np.setdiff1d
+    edits = rng.random() < 0.3  # the caller goes on editing the objects it submitted
+    caps = rng.random() < 0.45
+    ops, x = [], 0
+    pool = {}
+    inflight = [0] * n
+    n_ops = rng.randint(3, maxlen + (6 if big else 0))
+    for _ in range(n_ops):
+        who = rng.randrange(n)
+        r = rng.random()
+        if caps and r < 0.14:
+            cap = rng.choice([-1, 0, 1, 2, 2, 3, 3, 4, 6, 9])
+            ops.append({"who": who, "op": "setmax", "n": cap})
+            if cap > 0 and rng.random() < 0.6:  # a batch the cap cuts in the middle
+                k = cap + rng.randint(0, 3)
+                ops.append({"who": who, "op": "submit", "cfgs": [_mk_cfg(rng, x + t, backend, hpo) for t in range(k)]})
+                x += k
+                inflight[who] += k  # an upper bound
+            continue
+        r = rng.random()
+        if r < 0.36 or (not ops and r < 0.8):
+            k = rng.choice([1, 1, 2, 2, 3, 4, 5]) + (rng.choice([0, 3, 5]) if big else 0)
+            if malformed and rng.random() < 0.2:
+                k = 0
+            if edits:
+                op, k = _submit_op(rng, x, k, backend, hpo, pool)
+            else:
+                op = {"op": "submit", "cfgs": [_mk_cfg(rng, x + t, backend, hpo) for t in range(k)]}
+            if rng.random() < 0.12 and op["cfgs"] and hpo:
+                op["cfgs"][rng.randrange(len(op["cfgs"]))]["zero"] = True  # objective 0.0: a falsy stored output
+            ops.append({"who": who, **op})
+            if edits:
+                ops.extend({"who": who, **m} for m in _mutations(rng, pool))
+            x += k
+            inflight[who] += k
+        elif r < 0.56:
+            ops.append({"who": who, "op": "gather", "all": True, "k": 0})
+            inflight[who] = 0
+        elif r < 0.8:
+            k = rng.choice([1, 1, 1, 2, 2, 3])
+            if malformed and rng.random() < 0.3:
+                k = rng.choice([0, 7])
+            elif inflight[who] == 0 and not malformed and rng.random() < 0.85:
+                ops.append({"who": who, "op": "gather", "all": True, "k": 0})  # nothing of its own: still hears of the others
+                continue
+            ops.append({"who": who, "op": "gather", "all": False, "k": k})
+            inflight[who] = max(0, inflight[who] - k)
+        elif r < 0.9:
+            ops.append({"who": who, "op": "close"})
+            inflight[who] = 0
+        else:
+            ops.append({"who": who, "op": "dump", "flush": rng.random() < 0.3})
+    # probe: everybody collects what is left, twice (the second round reports the others' last jobs), dumps, closes
+    order = list(range(n))
+    rng.shuffle(order)
+    for rnd in range(2):
+        for who in order:
+            ops.append({"who": who, "op": "gather", "all": True, "k": 0})
+    for who in order:
+        ops += [{"who": who, "op": "dump", "flush": True}, {"who": who, "op": "close"}]
+    for o in ops:
+        if o["op"] == "gather" and backend == "thread":
+            o["bursts"] = [rng.choice([1, 1, 2, 3]) for _ in range(3)]
+    return {"shared": True, "backend": backend, "hpo": hpo, "n": n, "workers": [rng.choice([1, 2, 2, 3, 5]) for _ in range(n)],
+            "ops": ops, "malformed": malformed}
+
+
+def drive_shared(case, spy, vt):
+    from deephyper.evaluator.storage import MemoryStorage
+
+    storage = MemoryStorage()
+    sid = storage.create_new_search()
+    shared = {"storage": storage, "sid": sid, "pool": {}, "reg": {}, "prio": {}, "objs": []}
+    reals = []
+    for i in range(case["n"]):
+        sub = {"backend": case["backend"], "hpo": case["hpo"], "workers": case["workers"][i]}
+        reals.append(Real(sub, spy, vt if i == 0 else None, shared=shared))
+    if case["backend"] == "thread":
+        global _REG_CURRENT
+        _REG_CURRENT = shared["reg"]
+    trace = []
+    truth = []  # the configurations that became jobs, as they were when submitted (job id = position)
+    try:
+        for op in case["ops"]:
+            obs = reals[op["who"]].do({k: v for k, v in op.items() if k != "who"})
+            if op["op"] == "submit":
+                truth.extend(obs.get("truth", []))
+            st = {}
+            for r in reals:
+                st.update(r.own_statuses())
+            obs["all_statuses"] = [st.get(i) for i in range(len(truth))]
+            if op["op"] == "gather":
+                # jobs whose caller-side object no longer is what was submitted (the caller's own edits)
+                obs["edited"] = {i: copy.deepcopy(o) for i, (o, t) in enumerate(zip(shared["objs"], truth)) if o != t}
+            trace.append(obs)
+            if obs["out"]["kind"] == "error" and obs["out"]["err"].startswith(("other:", "loopClosed")):
+                break
+    finally:
+        for r in reals:
+            r.dispose()
+    return trace
+
+
+def _shared_calls(case, trace):
+    """(index, op, obs) of the calls of the evaluators (the caller's own edits are not calls)"""
+    return [(i, op, obs) for i, (op, obs) in enumerate(zip(case["ops"], trace)) if not op["op"].startswith("mutate")]
+
+
+def _wire_call(op, obs, env):
+    k = op["op"]
+    if k == "submit":
+        # the configurations the caller passed (all of them: the model decides which become jobs)
+        return {"op": "submit", "cfgs": [_cfg_wire(c) for c in obs["_passed"]]}
+    if k == "gather":
+        c = {"op": "gather", "all": op["all"], "k": op["k"]}
+        if env:
+            c.update(started=obs["env"]["started_ids"], waits=obs["env"].get("waits", []))
+        return c
+    if k == "close":
+        return {"op": "close", **({"finished": obs["env"].get("finished", [])} if env else {})}
+    if k == "dump":
+        return {"op": "dump", **({"flush": op["flush"]} if env else {})}
+    return {"op": "setmax", "n": op["n"]}
+
+
+def _wire_res(out):
+    if out["kind"] == "jobs":
+        return {"kind": "jobs", "jobs": out["jobs"], "other": out.get("other", [])}
+    if out["kind"] == "rows":
+        return {"kind": "rows", "ids": [j["id"] for j in out["jobs"]]}
+    if out["kind"] in ("unit", "spawnmax"):
+        return {"kind": out["kind"]}
+    return {"kind": "error", "err": out["err"] if out.get("err") in ("noLoop", "noJobs") else "other"}
+
+
+def shared_requests(case, trace):
+    reqs = [{"op": "minit", "hpo": case["hpo"], "n": case["n"], "out_truthy_always": zero_output_is_reported()}]
+    for i, op, obs in _shared_calls(case, trace):
+        reqs.append({"op": "mstep", "who": op["who"], "call": _wire_call(op, obs, True)})
+    return reqs
+
+
+def shared_trace(case, trace):
+    steps, index = [], []
+    for i, op, obs in _shared_calls(case, trace):
+        index.append(i)
+        steps.append({"who": op["who"], "call": _wire_call(op, obs, False), "res": _wire_res(obs["out"]),
+                      "num_submitted": obs["num_submitted"], "num_gathered": obs["num_gathered"], "jobs_done": obs["jobs_done"]})
+    return {"op": "mcheck", "hpo": case["hpo"], "n": case["n"], "out_truthy_always": zero_output_is_reported(), "trace": steps}, index
+
+
+def _prepare_shared(case, trace):
+    """per call: the configurations passed to submit as they were at that moment (ground truth + the ones the cap
+    left out), the started jobs as storage ids"""
+    for op, obs in zip(case["ops"], trace):
+        if op["op"] == "submit":
+            made = obs.get("truth", [])
+            rest = [{a: b for a, b in c.items() if a not in ("obj", "set")} for c in op["cfgs"][len(made):]]
+            obs["_passed"] = made + rest
+
+
+def oracle_shared(case, trace):
+    """Python statement of the property for several evaluators on one search (cross-check of `checkMTrace`):
+    [(clause, op index, detail)]"""
+    hpo, n = case["hpo"], case["n"]
+    cfgs, owner = [], []
+    E = [{"del": {}, "recs": {}, "rep": set(), "pend": [], "off": 0, "cap": -1} for _ in range(n)]
+    bad = []
+    for i, op, obs in _shared_calls(case, trace):
+        who, kind, out = op["who"], op["op"], obs["out"]
+        e = E[who]
+        inflight = sum(1 for w in owner if w == who) - len(e["del"])
+        pend0 = list(e["pend"])
+        if out["kind"] == "error" and not (kind == "gather" and not op["all"] and op["k"] > 0 and inflight == 0
+                                           and out["err"] in ("noLoop", "noJobs")):
+            bad.append(("no-exception", i, out["msg"]))
+            break
+        if kind == "submit":
+            passed = obs["_passed"]
+            room = len(passed) if e["cap"] <= 0 else min(len(passed), max(0, e["cap"] - (len(cfgs) - e["off"])))
+            made = obs.get("truth", [])
+            if len(made) != room or (out["kind"] == "spawnmax") != (room < len(passed)):
+                bad.append(("cap", i, f"cap {e['cap']}, {len(cfgs) - e['off']} counted as submitted: {len(passed)} passed, {len(made)} created, result {out['kind']}"))
+            cfgs.extend(made)
+            owner.extend([who] * len(made))
+        elif kind == "setmax":
+            e["cap"], e["off"] = op["n"], len(e["del"]) + len(e["rep"])
+        elif kind == "gather" and out["kind"] == "jobs":
+            ids = [j["id"] for j in out["jobs"]]
+            for j, args, output in zip(out["jobs"], out["_args"], out["_outputs"]):
+                g = j["id"]
+                if g in e["del"] or ids.count(g) > 1:
+                    bad.append(("twice", i, f"job {g} handed back again"))
+                elif g >= len(cfgs):
+                    bad.append(("unknown-job", i, f"job {g} was never submitted"))
+                elif owner[g] != who:
+                    bad.append(("not-owner", i, f"evaluator {who} hands back job {g} of evaluator {owner[g]} as its own"))
+                else:
+                    if args != cfgs[g]:
+                        bad.append(("payload-config", i, f"job {g} carries {args}, submitted {cfgs[g]}"))
+                    if output != _expected(cfgs[g], hpo) or type(output) is not type(_expected(cfgs[g], hpo)):
+                        bad.append(("payload-output", i, f"job {g} output {output!r}"))
+                    if j["status"] != "DONE":
+                        bad.append(("payload-status", i, f"job {g} handed back with status {j['status']}"))
+                e["del"].setdefault(g, "gather")
+                e["recs"][g] = j
+            need = inflight if op["all"] else min(op["k"], inflight)
+            if len(ids) < need:
+                bad.append(("batch-size", i, f"returned {len(ids)} < {need}"))
+            if op["all"] and len(ids) != inflight and not bad:
+                bad.append(("all-leaves-running", i, f"{inflight - len(ids)} job(s) of evaluator {who} still in flight after gather ALL"))
+            oids = [j["id"] for j in out.get("other", [])]
+            foreign = {g: r for w in range(n) if w != who for g, r in E[w]["recs"].items()}
+            for j, args, output in zip(out.get("other", []), out.get("_other_args", []), out.get("_other_outputs", [])):
+                g = j["id"]
+                if g in e["rep"] or oids.count(g) > 1:
+                    bad.append(("other-twice", i, f"evaluator {who} is told about job {g} twice"))
+                elif g < len(owner) and owner[g] == who:
+                    bad.append(("other-own", i, f"evaluator {who} is told about its own job {g} as another evaluator's"))
+                elif g not in foreign:
+                    bad.append(("other-early", i, f"job {g} reported to evaluator {who} before its owner accounted for it"))
+                elif args != cfgs[g]:
+                    bad.append(("other-payload-config", i, f"job {g} reported with {args}, submitted {cfgs[g]}"))
+                elif j != foreign[g]:
+                    bad.append(("other-payload-output", i, f"job {g} reported as {j}, its owner saw {foreign[g]}"))
+                e["rep"].add(g)
+            for g, r in foreign.items():
+                if g not in e["rep"] and hpo and r["out"] is not None and (zero_output_is_reported() or r["out"]["v"] not in ("0/1", "")):
+                    bad.append(("other-missing", i, f"job {g} (accounted for by evaluator {owner[g]}) not reported to evaluator {who}"))
+            e["pend"] += ids + oids
+        elif kind == "close":
+            new = obs["jobs_done"][len(pend0):]
+            for j in new:
+                g = j["id"]
+                if g in e["del"]:
+                    bad.append(("both", i, f"job {g} recorded by close although already delivered"))
+                    continue
+                if g >= len(cfgs):
+                    bad.append(("unknown-job", i, f"job {g} was never submitted"))
+                    continue
+                if owner[g] != who:
+                    bad.append(("not-owner", i, f"close of evaluator {who} records job {g} of evaluator {owner[g]}"))
+                    continue
+                e["del"][g] = "close"
+                e["recs"][g] = j
+                exp_done = _canon_out(_expected(cfgs[g], hpo), hpo)
+                exp_canc = {"t": "str", "v": "F_CANCELLED"} if hpo else None
+                if not ((j["status"] == "DONE" and j["out"] == exp_done) or (j["status"] == "CANCELLED" and j["out"] == exp_canc)):
+                    bad.append(("close-record", i, f"job {g} recorded as {j['status']} / {j['out']}"))
+                w = _cfg_wire(cfgs[g])
+                if (j["x"], j["tag"], j["fail"], j["nest"], j["w"]) != (w["x"], w["tag"], w["fail"], w["nest"], w["w"]):
+                    bad.append(("payload-config", i, f"job {g} carries another configuration"))
+            if len(new) != inflight and not bad:
+                bad.append(("lost", i, f"close of evaluator {who} records {len(new)} of its {inflight} job(s) in flight"))
+            e["pend"] += [j["id"] for j in new]
+        elif kind == "dump":
+            rows = [j["id"] for j in out["jobs"]]
+            if rows and rows != e["pend"]:
+                bad.append(("dump-once", i, f"rows {rows} written, jobs awaiting dump {e['pend']}"))
+            if rows:
+                e["pend"] = []
+        if kind != "close" and not bad and [j["id"] for j in obs["jobs_done"]] != e["pend"]:
+            bad.append(("dump-once" if kind == "dump" else "jobs-done", i, f"jobs_done {[j['id'] for j in obs['jobs_done']]}, expected {e['pend']}"))
+        if not bad:
+            if obs["num_submitted"] != len(cfgs) - e["off"]:
+                bad.append(("count-submitted", i, f"num_jobs_submitted={obs['num_submitted']}, jobs in the search {len(cfgs)} - offset {e['off']}"))
+            elif obs["num_gathered"] != len(e["del"]) + len(e["rep"]) - e["off"]:
+                bad.append(("count-gathered", i, f"num_jobs_gathered={obs['num_gathered']}, own {len(e['del'])} + reported {len(e['rep'])} - offset {e['off']}"))
+        if bad:
+            break
+    return bad
+
+
+def shared_fingerprint(case, trace, clause, i):
+    op = case["ops"][i]
+    site = op["op"] + ("(ALL)" if op.get("all") else "(BATCH)" if op["op"] == "gather" else "")
+    opt = "shared-storage"
+    if clause == "other-payload-config":
+        # is it the caller's own later edit of the submitted object that the report carries?
+        obs = trace[i]
+        for j, args in zip(obs["out"].get("other", []), obs["out"].get("_other_args", [])):
+            if j["id"] in obs.get("edited", {}) and args == obs["edited"][j["id"]]:
+                opt += "+caller-edit"
+                break
+    if any(o["op"] == "setmax" for o in case["ops"][:i]) and clause in ("cap", "count-submitted", "count-gathered"):
+        opt += "+cap"
+    return f"{PROP}|{clause}|{site}|{opt}"
+
+
+def compare_shared(case, trace, reps):
+    calls = _shared_calls(case, trace)
+    for (i, op, obs), rep in zip(calls, reps[1:]):
+        if not rep["env_ok"]:
+            return {"op": i, "what": "the observed environment violates the modelled asyncio contract (EnvOK)", "env": obs["env"]}
+        out = _strip(obs["out"])
+        if out.get("kind") == "jobs":
+            out.setdefault("other", [])
+        mine = {"out": out, "num_submitted": obs["num_submitted"], "num_gathered": obs["num_gathered"],
+                "jobs_done": obs["jobs_done"], "statuses": obs["all_statuses"]}
+        model = {k: rep[k] for k in mine}
+        if out.get("kind") == "rows":
+            model["out"] = {"kind": "rows", "jobs": [{k: v for k, v in j.items() if k not in ("nest", "w", "zero")}
+                                                     for j in model["out"].get("jobs", [])]}
+        if out.get("kind") == "spawnmax":
+            model["out"] = {"kind": model["out"].get("kind")}
+            mine["out"] = {"kind": "spawnmax"}
+        if json.loads(common.canon(mine)) != json.loads(common.canon(model)):
+            diff = {k: {"impl": mine[k], "model": model[k]} for k in mine
+                    if json.loads(common.canon(mine[k])) != json.loads(common.canon(model[k]))}
+            return {"op": i, "call": {k: v for k, v in op.items() if k != "cfgs"}, "diff": diff, "env": obs["env"]}
+    return None
+
+
+def _shared_stats(ck, case, trace):
+    ck.count("shared:scenario")
+    ck.count(f"shared:evaluators={case['n']}")
+    ck.count("shared:backend:" + case["backend"])
+    ck.count("shared:format:" + ("hpo" if case["hpo"] else "regular"))
+    last = None
+    for op, obs in zip(case["ops"], trace):
+        if op["op"].startswith("mutate"):
+            continue
+        ck.count("shared:op:" + op["op"] + ("-ALL" if op.get("all") else ""))
+        if last is not None and last != op["who"]:
+            ck.count("shared:switch-of-evaluator")
+        last = op["who"]
+        o = obs["out"]
+        if o["kind"] == "spawnmax":
+            ck.count("shared:MaximumJobsSpawnReached" + (":mid-batch" if obs.get("truth") else ":nothing-created"))
+        if o["kind"] == "error":
+            ck.count("shared:error:" + o["err"])
+        if op["op"] == "gather" and o["kind"] == "jobs":
+            no = len(o.get("other", []))
+            ck.count("shared:gather:" + ("local+other" if o["jobs"] and no else "other-only" if no else "local-only" if o["jobs"] else "nothing"))
+            ck.count("shared:foreign-jobs-reported", no)
+            oid = [j["id"] for j in o.get("other", [])]
+            if oid != sorted(oid):
+                ck.count("shared:other-in-string-order(10<2)")
+            if any(j["status"] == "CANCELLED" for j in o.get("other", [])):
+                ck.count("shared:other-was-cancelled-by-its-owner")
+            if any(j["out"] == {"t": "num", "v": "0/1"} for j in o["jobs"]) and case["n"] > 1 and case["hpo"]:
+                ck.count("shared:objective-0.0-delivered(" + ("reported" if zero_output_is_reported() else "never reported") + " to the others)")
+        if op["op"] == "close" and any(s in ("READY", "RUNNING") for s in obs["all_statuses"] if s):
+            ck.count("shared:close-while-others-in-flight")
+    if len(trace) and any(o["op"] == "setmax" for o in case["ops"]):
+        ck.count("shared:with-cap")
+
+
+def shared_failure(case, trace, d):
+    req, index = shared_trace(case, trace)
+    rep = d.ask(req)
+    if rep["spec"]:
+        return None
+    i, clause = index[rep["first_bad"]], rep["clause"]
+    detail = f"checkMTrace = false: clause {clause} at call {i}"
+    out = trace[i]["out"]
+    if out["kind"] == "error":
+        detail = out["msg"]
+        if clause == "no-exception":
+            clause += ":" + out["msg"].split(":")[0]
+    return clause, i, detail
+
+
+def check_shared(ck, d, case, spy, vt, from_corpus=False):
+    trace = drive_shared(case, spy, vt)
+    _prepare_shared(case, trace)
+    complete = len(trace) == len(case["ops"])
+    _shared_stats(ck, case, trace)
+    ck.case({k: case[k] for k in ("shared", "backend", "hpo", "n", "workers", "ops")},
+            nontrivial=len(trace) >= 5 and any(o["op"] == "gather" for o in case["ops"]))
+    # L3: the verified checker on the real trace, the Python statement as a cross-check
+    py = oracle_shared(case, trace)
+    ff = shared_failure(case, trace, d)
+    if (ff is None) != (not py) or (ff and py and ff[1] != py[0][1]):
+        ck.mismatch(case, {"what": "oracle disagreement: Lean checkMTrace vs. the Python statement of the property",
+                           "lean": ff, "python": py[:2]})
+    if ff:
+        clause, i, detail = ff
+        if py and py[0][1] == i:
+            if clause == "other-payload" and py[0][0].startswith("other-payload"):
+                clause = py[0][0]  # which part of the payload (the Python statement looks at the objects themselves)
+            if detail.startswith("checkMTrace"):
+                detail += " (" + str(py[0][2]) + ")"
+        fp = shared_fingerprint(case, trace, clause, i)
+        ck.fail(fp, f"{clause} at call {i} (evaluator {case['ops'][i]['who']}: {case['ops'][i]['op']}): {detail}", case,
+                {"clause": clause, "call_index": i, "detail": detail, "oracle": "Lean checkMTrace (C01_multi_checker)"})
+        return ff, None  # the state after a violated call is not specified: no model comparison
+    # L2
+    reps = d.ask_all(shared_requests(case, trace))
+    mm = compare_shared(case, trace, reps)
+    if mm is not None:
+        ck.mismatch(case, mm)
+    elif not complete:
+        ck.mismatch(case, "script ended early without an oracle failure")
+    return ff, mm
+
+
 def _corpus():
     d = common.VERIF / "corpus" / PROP
     out = []
@@ -1112,12 +1595,18 @@ def run(ck):
                "of length <= 12 (quick) / 40 (thorough) + a fixed close/submit/gather/dump/close probe; num_workers in {1,2,3,5}; "
                "Job and HPOJob CSV formats; serial backend on a virtual clock with durations {0,1,2,3,5} quanta (ties), thread backend "
                "with per-job events released by priority in bursts of 1-3, process/loky with real sleeps (thorough); distinct by "
-               "canonical script; non-trivial = >= 4 calls with a gather and a submit of >= 2 configurations")
+               "canonical script; non-trivial = >= 4 calls with a gather and a submit of >= 2 configurations; "
+               "+ scripts of 1-3 evaluators attached to ONE MemoryStorage search (serial on the virtual clock and thread backend): "
+               "interleaved submit / gather ALL / gather BATCH k / close / dump / set_maximum_num_jobs_submitted(-1..9) of <= 12 (quick) / 30 "
+               "calls + a collect-twice/dump/close probe, > 10 jobs in 25 % (string order of ids), caller-side edits of submitted objects in "
+               "30 %, objective 0.0 (falsy stored output), caps that cut a batch in the middle; replayed step by step against "
+               "Model/EvaluatorMulti.lean and judged by the Lean checker checkMTrace")
     ck.assumptions = [
         "asyncio.wait returns duplicate-free subsets of the tasks it was given, ALL_COMPLETED returns all of them (EnvOK; observed sets are validated by the model on every call)",
         "a task reported done had acquired the worker semaphore (its job was RUNNING)",
-        "run-functions return (do not raise); a single evaluator per storage search (gather_other_jobs_done returns nothing)",
-        "set_maximum_num_jobs_submitted / timeouts are outside this property (C03, C14)",
+        "run-functions return (do not raise); timeouts are outside this property (C14)",
+        "several evaluators on one storage search: all of them use the same job class (HPOJob or Job) and one in-process MemoryStorage; "
+        "whether a stored objective 0.0 counts as 'finished' in gather_other_jobs_done (`if job_data['out']`) is a parameter of the model, observed once per run",
     ]
     ck.trusted_extra = [
         "asyncio / concurrent.futures / loky executors (modelled as the environment inputs `started`, `waits`, `finished`)",
@@ -1140,6 +1629,8 @@ def run(ck):
                     continue
                 if case.get("multi"):
                     check_multi(ck, d, case, spy, use_vt)
+                elif case.get("shared"):
+                    check_shared(ck, d, case, spy, use_vt, from_corpus=True)
                 else:
                     check_case(ck, d, case, spy, use_vt, from_corpus=True)
             for t in range(n_serial):
@@ -1149,6 +1640,8 @@ def run(ck):
                 shared_storage_case(ck, rng, vt)
             for t in range(ck.pick(40, 400)):
                 check_multi(ck, d, gen_multi_case(rng), spy, vt)
+            for t in range(ck.pick(130, 900)):
+                check_shared(ck, d, gen_shared_case(rng, "serial", ck.pick(12, 30), malformed=(t % 6 == 5)), spy, vt)
         finally:
             spy.uninstall()
             vloop.VLoop._run_once = orig_once
@@ -1157,9 +1650,11 @@ def run(ck):
         try:
             for name, case in _corpus():
                 if case["backend"] != "serial":
-                    check_case(ck, d, case, spy, None, from_corpus=True)
+                    (check_shared if case.get("shared") else check_case)(ck, d, case, spy, None, from_corpus=True)
             for t in range(n_thread):
                 check_case(ck, d, gen_case(rng, "thread", min(maxlen, 16), malformed=(t % 6 == 5)), spy, None)
+            for t in range(ck.pick(22, 150)):
+                check_shared(ck, d, gen_shared_case(rng, "thread", ck.pick(10, 16), malformed=(t % 6 == 5)), spy, None)
             for t in range(n_proc):
                 check_case(ck, d, gen_case(rng, "process", 8), spy, None)
             for t in range(n_loky):
@@ -1182,6 +1677,18 @@ def _replay(ck, case):
             vloop.uninstall()
         ck.extra_cov.pop("_fails", None)
         print("replay: per evaluator (oracle failure, model mismatch):", res)
+        return
+    if case.get("shared"):
+        spy = WaitSpy()
+        vt = vloop.install() if case["backend"] == "serial" else None
+        spy.install()
+        try:
+            with ck.driver() as d:
+                bad, mm = check_shared(ck, d, case, spy, vt, from_corpus=True)
+        finally:
+            spy.uninstall()
+            vloop.uninstall()
+        print("replay: oracle failures:", bad or "none", "| model mismatch:", mm or "none")
         return
     if case.get("shared_storage"):
         vt = vloop.install()
